@@ -185,6 +185,10 @@ def case_dmrg(ctx, i):
     if force_conv:
         opts['max_sweeps'] = int(rng.integers(8, 16))
         opts['mixer_params']['amplitude'] = float(rng.choice([1e-2, 1e-3]))
+    if diag in ('default', 'lanczos') and rng.random() < 0.4:
+        # documented eigensolver option: the reported energies are those of H, not of the shifted operator
+        opts['lanczos_params'] = {'E_shift': float(rng.choice([-4., -1.5, 2.5, -20.]))}
+        ctx.count('lanczos.E_shift')
     has_chi_list = bool(rng.random() < 0.2) and not force_conv
     if has_chi_list:
         opts['chi_list'] = {0: 2, 2: chi_max}
@@ -344,6 +348,7 @@ def case_dmrg(ctx, i):
             o2['mixer_params'] = {'amplitude': 1e-2, 'decay': 1.5, 'disable_after': 8}
             o2['max_sweeps'] = 14
             o2.pop('chi_list', None)
+            o2.pop('lanczos_params', None)  # (a positive E_shift moves the target energy above 0: the documented limitation again)
             eng1 = dmrg.TwoSiteDMRGEngine(psi1, M, o2, orthogonal_to=[psi])
             E1, psi1 = eng1.run()
             ctx.count('ortho.runs')
